@@ -89,6 +89,8 @@ def run_case(case):
         H.require_clean(w, 'parquet.dump_to_file', **ctx)
         if w.items:
             raise Violation('dump_to_file emitted items', **ctx)
+        if not os.path.exists(f) or os.path.getsize(f) == 0:
+            raise Violation('parquet.dump_to_file completed without writing a parquet file', **ctx)
         try:
             table = pq.read_table(f).to_pylist()
         except Exception as e:
@@ -99,6 +101,8 @@ def run_case(case):
                 first_rows_in_file=table[:3], first_rows_written=rows[:3], **ctx)
         if case['fileobj']:
             with open(f, 'rb') as fo:
+                if case.get('cursor'):
+                    fo.read(4)          # e.g. the caller sniffed the PAR1 magic: a parquet reader addresses the file by absolute offsets
                 r = drive.collect(parquet.load_from_file(fo, batch_size=case['load_batch']))
         else:
             loader = parquet.load_from_file(f, batch_size=case['load_batch'])
@@ -140,7 +144,7 @@ def case_gen(draw):
     cols = draw(st.lists(st.sampled_from(sorted(COLS)), min_size=1, max_size=5, unique=True))
     return {'rows': rows, 'dump_batch': b, 'load_batch': draw(st.one_of(st.integers(1, 8), st.integers(1, 2000))),
             'row_group': draw(st.sampled_from([None, None, 1, 3, 100])), 'compression': draw(st.sampled_from(['NONE', 'snappy', 'gzip', 'zstd'])),
-            'cols': cols, 'fileobj': draw(st.booleans()), 'seed': draw(st.integers(0, 99)), 'nulls': draw(st.booleans()), 'twice': draw(st.integers(0, 3)) == 0}
+            'cols': cols, 'fileobj': draw(st.booleans()), 'seed': draw(st.integers(0, 99)), 'nulls': draw(st.booleans()), 'twice': draw(st.integers(0, 3)) == 0, 'cursor': draw(st.booleans())}
 
 
 def boundary(tier):
